@@ -29,15 +29,9 @@ Definition model_build_panics (bs : list dblock) : bool :=
 (* class 1 (F1): some list item starts with a code block, quote, table or rule:
    [item_leads_ok] of BuilderFacts.v, the hypothesis of the totality theorem *)
 
-(* class 3 (F3): some list whose first item is empty *)
-Fixpoint first_items_nonempty (b : dblock) {struct b} : bool :=
-  let fix go (l : list dblock) : bool := match l with [] => true | x :: r => first_items_nonempty x && go r end in
-  let fix goi (l : list (list dblock)) : bool := match l with [] => true | x :: r => go x && goi r end in
-  match b with
-  | DQuote _ bs => go bs
-  | DOList its | DBList its => (match its with [] :: _ => false | _ => true end) && goi its
-  | _ => true
-  end.
+(* (formerly class 3, F-EMPTYFIRST, repaired in 9f6ec66: `DocumentBlock::line_range` of a list
+   whose first item is empty no longer unwraps; Pos.line_range with [v_empty_item],
+   PosFacts.link_at_total) *)
 
 (* (formerly class 5, F-INLINEREF, repaired: inline actions are no longer offered on references that
    cannot be inlined) the note holds a block reference *)
@@ -54,7 +48,6 @@ Fixpoint has_block_ref (b : dblock) {struct b} : bool :=
 Definition c3_classes (c : c3case) : list N :=
   match c3_blocks c with
   | Ok bs => flag 1 (forallb item_leads_ok bs) ++ flag 2 (forallb plain_items bs) ++
-             flag 3 (forallb first_items_nonempty bs) ++
              flag 6 (negb (c3_crlf c))
   | Panic _ => flag 4 (negb (starts_with "long" (c3_shape c) || starts_with "deep" (c3_shape c) ||
                              starts_with "wide" (c3_shape c)))
@@ -72,7 +65,6 @@ Definition explains (cls g : N) : bool :=
   match cls with
   | 1 => N.eqb g 2                       (* builder panic while loading *)
   | 2 => true                            (* corrupted arena: anything afterwards *)
-  | 3 => N.eqb g 7 || N.eqb g 8          (* link_at *)
   | 4 => true                            (* too large to dump: stack *)
   | 6 => N.eqb g 8                       (* key_range with shifted columns *)
   | _ => false
